@@ -23,6 +23,7 @@ import (
 	"sync"
 	"time"
 
+	fancmd "github.com/markusressel/fan2go/cmd/fan"
 	"github.com/markusressel/fan2go/internal/configuration"
 	"github.com/markusressel/fan2go/internal/control_loop"
 	"github.com/markusressel/fan2go/internal/controller"
@@ -56,7 +57,8 @@ type startupCmd struct {
 	Id int    `json:"id"`
 }
 type startupIn struct {
-	Par  bool             `json:"par"`
+	Par   bool `json:"par"`
+	Cobra bool `json:"cobra"` // `fan reset` of a file fan goes through the real cobra command with a generated config file
 	Fans []startupFanSpec `json:"fans"`
 	Db   []startupDbEntry `json:"db"`
 	Cmds []startupCmd     `json:"cmds"`
@@ -669,11 +671,16 @@ func startupRun(ctx *Ctx, in startupIn) startupObs {
 			}
 		case "stop":
 		case "reset":
-			// cmd/fan/reset.go: DeleteFanPwmData, DeleteFanPwmMap
-			p := persistence.NewPersistence(env.dbPath)
-			fan := d.newFan()
-			if err := p.DeleteFanPwmData(fan); err == nil {
-				_ = p.DeleteFanPwmMap(fan.GetId())
+			if in.Cobra && d.spec.Kind == "file" {
+				startupCobraReset(env, d)
+				startupSetGlobals(in.Par) // LoadConfig replaced configuration.CurrentConfig
+			} else {
+				// cmd/fan/reset.go: DeleteFanPwmData, DeleteFanPwmMap
+				p := persistence.NewPersistence(env.dbPath)
+				fan := d.newFan()
+				if err := p.DeleteFanPwmData(fan); err == nil {
+					_ = p.DeleteFanPwmMap(fan.GetId())
+				}
 			}
 		case "init":
 			// cmd/fan/init.go: delete both entries, then RunInitializationSequence on a fresh controller
@@ -703,6 +710,29 @@ func startupRun(ctx *Ctx, in startupIn) startupObs {
 		stop(id)
 	}
 	return obs
+}
+
+// startupCobraReset runs the real `fan2go fan reset --id <fan>` command on a generated configuration file
+func startupCobraReset(env *startupEnv, d *startupDev) {
+	temp := filepath.Join(env.dir, "temp_input")
+	_ = os.WriteFile(temp, []byte("40000"), 0644)
+	id := "fan" + strconv.Itoa(d.spec.Id)
+	yaml := "dbPath: " + env.dbPath + "\n" +
+		"fans:\n  - id: " + id + "\n    curve: c1\n    file:\n      path: " + d.pwmPath + "\n"
+	if d.rpmPath != "" {
+		yaml += "      rpmPath: " + d.rpmPath + "\n"
+	}
+	yaml += "sensors:\n  - id: s1\n    file:\n      path: " + temp + "\n" +
+		"curves:\n  - id: c1\n    linear:\n      sensor: s1\n      min: 40\n      max: 80\n"
+	cfg := filepath.Join(env.dir, "fan2go.yaml")
+	if err := os.WriteFile(cfg, []byte(yaml), 0644); err != nil {
+		panic(err)
+	}
+	configuration.InitConfig(cfg)
+	fancmd.Command.SetArgs([]string{"reset", "--id", id})
+	if err := fancmd.Command.Execute(); err != nil {
+		panic("cobra fan reset: " + err.Error())
+	}
 }
 
 // ---------------------------------------------------------------- Coq rendering
@@ -948,6 +978,7 @@ func startupGenCase(rng *Rng, cmdSweepBudget *int) (startupIn, []string) {
 			in.Cmds = append(in.Cmds, startupCmd{"init", id})
 		}
 	}
+	in.Cobra = rng.Bool()
 	// every case ends with two consecutive starts of one fan: the second one is a restart
 	id := rng.Range(1, nf)
 	in.Cmds = append(in.Cmds, startupCmd{"start", id}, startupCmd{"stop", id}, startupCmd{"start", id})
@@ -964,8 +995,15 @@ func startupObsTags(in startupIn, obs startupObs) ([]string, bool) {
 			tags = append(tags, t)
 		}
 	}
+	kinds := map[int]string{}
+	for _, f := range in.Fans {
+		kinds[f.Id] = f.Kind
+	}
 	for i, c := range in.Cmds {
 		add("cmd-" + c.Op)
+		if c.Op == "reset" && in.Cobra && kinds[c.Id] == "file" {
+			add("cobra-fan-reset")
+		}
 		if i >= len(obs.Steps) {
 			continue
 		}
@@ -1018,7 +1056,7 @@ func init() {
 								if mm {
 									f.Min, f.Max = id(30), id(220)
 								}
-								in := startupIn{Par: rng.Bool(), Fans: []startupFanSpec{f}}
+								in := startupIn{Par: rng.Bool(), Cobra: kind == "file", Fans: []startupFanSpec{f}}
 								ent := startupDbEntry{Id: 1, Data: dbs&1 != 0, HasMap: dbs&2 != 0}
 								if ent.HasMap {
 									for w := 0; w <= 255; w++ {
